@@ -112,7 +112,7 @@ ADDED = {
 # clauses added after the fifth seeding round (DESIGN.md 10.8)
 ADDED5 = {
  'C01': " Round 5: the opener's memmap / empty-substitute branches use the stored dtype (shared); no result of a memoised helper is changed in place (embedded positive example).",
- 'C02': " Round 5: the supported-type gate dominates asarray's effects (shared with C01); truncate_array commits the length the file was cut to; a JSON/text file rewritten through a non-truncating handle is cut after the last write (embedded positive example).",
+ 'C02': " Round 5: the supported-type gate dominates asarray's effects (shared with C01); truncate_array commits the length the file was cut to; a JSON/text file rewritten through a non-truncating handle is cut after the last write (embedded positive example). Round 6: the handler that empties the data file protects the write only (no length commit inside its try).",
  'C03': " Round 5: no return/break/continue leaves a finally block (embedded positive example).",
  'C04': " Round 5: len(item) is evaluated before the first write (shared with C10); no escape from finally.",
  'C06': " Round 5: Array.__init__ performs no file-system mutation (shared with C07 A5).",
@@ -121,12 +121,12 @@ ADDED5 = {
  'C09': " Round 5: no escape from finally.",
  'C10': " Round 5: no escape from finally; both sub-array openers of a RaggedArray method receive the same access mode.",
  'C11': " Round 5: ragged opener mode agreement; accessmode setters refuse by value only (never depending on the handle's state).",
- 'C12': " Round 5: __getitem__ does not use the file object the opener yields (reads go through the map only); every normal completion of __setitem__ has performed the assignment.",
+ 'C12': " Round 5: __getitem__ does not use the file object the opener yields (reads go through the map only); every normal completion of __setitem__ has performed the assignment. Round 6: Array._arrayinfo returns the reader's result on every path (shared with C08/C18).",
  'C13': " Round 5: Mapping-mixin accessors accepted when __getitem__/__iter__/__len__ reach the reader; the writer keeps allow_nan; in-place rewrites truncate.",
  'C14': " Round 5: max()/min() in fit_frames decided by case analysis with infeasible cases discarded against the validated domain; every yield of the frame loop reads the map with the frame bounds; fit_frames' arithmetic runs after int() normalisation of its parameters.",
- 'C15': " Round 5: the metadata reader keeps no parsed content in the handle (shared with C13); archive never returns without passing tarfile.open.",
- 'C16': " Round 5: create_datadir creates the directory exclusively unless overwrite (mkdir(exist_ok=True) only where overwrite is known true); archive-always-written.",
- 'C17': " Round 5: append offers its argument as one chunk (shared with C09); the start offset of a new index row is the values length (shared with C04/C05); truncate commit matches the resize; an in-place ('r+') JSON rewrite is not a whole-file rewrite.",
+ 'C15': " Round 5: the metadata reader keeps no parsed content in the handle (shared with C13); archive never returns without passing tarfile.open. Round 6: every tf.add of archive adds the whole directory.",
+ 'C16': " Round 5: create_datadir creates the directory exclusively unless overwrite (mkdir(exist_ok=True) only where overwrite is known true); archive-always-written. Round 6: every tf.add of archive adds the whole directory.",
+ 'C17': " Round 5: append offers its argument as one chunk (shared with C09); the start offset of a new index row is the values length (shared with C04/C05); truncate commit matches the resize; an in-place ('r+') JSON rewrite is not a whole-file rewrite. Round 6: constructors perform no file-system mutation; the recovery path commits the counter of completed chunks (C09's recovery/accumulator clauses); reset-handler scope.",
  'C18': " Round 5: a failed read of the stored kind in darr.open is not swallowed; constructors perform no file-system mutation (a refused open/delete/truncate changes nothing); _arrayinfo always fresh.",
  'C20': " Round 5: in-place rewrites truncate (update_jsondict through an 'r+' handle).",
 }
